@@ -19,6 +19,7 @@ type LoopSpec struct {
 	Key       string
 	Invs      []Clause
 	Decreases *Expr
+	Uses      []*Expr // lemma instances assumed at the loop head: lemmaName(arg, ...)
 }
 
 // AppendSpec: "appends p n" - the first result is what append(p, x1..xn) returns for some
@@ -83,6 +84,7 @@ type FuncContract struct {
 	CoreTypes   bool // treat type parameters constrained to ~T0 as T0
 	Appends     *AppendSpec
 	SplitReturns bool // exit obligations per return site
+	NoSafeKinds map[string]bool
 	PureCallbacks map[string]bool // callback parameters assumed to have no effect on the heap
 	Bounded map[string]Clause // ensures label -> bound under which it is checked (a bounded stand-in, not a proof)
 	IsIface     bool // contract on an interface method (no body to verify)
@@ -377,6 +379,13 @@ func ParseContractFile(path, pkgPath string) (*ContractFile, error) {
 					} else {
 						ls.Decreases = e
 					}
+				case "uses":
+					e, err := ParseSpec(strings.TrimSpace(b2))
+					if err != nil || e.Kind != ECall {
+						addErr(rc.line, "loop ... uses <lemma>(args): %v", err)
+					} else {
+						ls.Uses = append(ls.Uses, e)
+					}
 				default:
 					addErr(rc.line, "unknown loop clause %q", k2)
 				}
@@ -479,7 +488,18 @@ func ParseContractFile(path, pkgPath string) (*ContractFile, error) {
 			case "trusted":
 				cur.Trusted = true
 			case "nosafe":
-				cur.NoSafe = true
+				// nosafe            - no safety obligations at all
+				// nosafe k1 k2 ...  - none of the listed kinds (nil, index, slice, makeslice, shift, div, ...)
+				if strings.TrimSpace(rest) == "" {
+					cur.NoSafe = true
+				} else {
+					if cur.NoSafeKinds == nil {
+						cur.NoSafeKinds = map[string]bool{}
+					}
+					for _, k := range strings.FieldsFunc(rest, func(r rune) bool { return r == ',' || r == ' ' }) {
+						cur.NoSafeKinds[k] = true
+					}
+				}
 			case "effectfree":
 				cur.EffectFree = true
 			case "uses":
